@@ -15,7 +15,11 @@ Core only (no Mathlib): this file is linked into the driver executable.
   by `reset` are parameters (`Cfg`); the driver and the theorems instantiate them with
   `Apko.Generated.Retry`, which the extractor rewrites from /repo on every run.
 * `Spec.*` is the property as a decidable checker over the observable event trace (requests sent,
-  body reads, results handed to the consumer).  The driver evaluates it on the trace of the real code.
+  body reads, results handed to the consumer) and the fault script.  The driver evaluates it on the
+  trace of the real code.  The k-th request of a download is answered by the k-th connection of the
+  script; the one clause that rests on an assumption about the network (`eof_complete`: a clean EOF
+  only when everything was delivered) is waived per connection, and only while that connection's
+  clean early end is *invisible* to the reader (`Conn.invisibleEnd`).
 -/
 import Apko.Model.Text
 import Apko.Generated.Retry
@@ -54,12 +58,13 @@ structure Conn where
   ending   : End           -- how the stream ends (after `cutAfter` bytes, or after the whole body)
   chunks   : List Nat      -- cap of the k-th `Read` on this body is `chunks[k] + 1` bytes; afterwards uncapped
   eager    : Bool          -- the end is reported together with the last bytes (`n > 0, err`)
-deriving Repr, Inhabited
+deriving DecidableEq, Repr, Inhabited
 
-/-- *Recorded assumption of `eof_complete`*: a stream that stops before the end of the response body
-does not look like a clean end — the connection "ends cleanly" only at the end of the body
-(net/http turns an early close into `io.ErrUnexpectedEOF` whenever Content-Length or chunked
-framing is present). -/
+/-- *The script-level (round 1) form of the recorded assumption of `eof_complete`*: a stream that stops
+before the end of the response body does not look like a clean end — the connection "ends cleanly"
+only at the end of the body (net/http turns an early close into `io.ErrUnexpectedEOF` whenever
+Content-Length or chunked framing is present).  It is sufficient for, and strictly stronger than, the
+refined per-connection assumption `Conn.invisibleEnd … = false` below. -/
 def Conn.signalsTruncation (c : Conn) : Prop := c.ending = .clean → c.cutAfter = none
 
 instance (c : Conn) : Decidable c.signalsTruncation := by unfold Conn.signalsTruncation; infer_instance
@@ -88,6 +93,45 @@ def serve (data : Text) (k : Kind) (c : Conn) (range : Option Nat) : Nat × Text
     | some p => (httpPartial, data.drop p)
     | none => (httpOK, data)
   else (code, c.page)
+
+/-! ### clean early ends, and which of them the reader can see
+
+A close-delimited response whose connection goes away, or a server that by now holds a shorter file,
+make a response stream stop early and look like a clean end.  The reader never compares what it got
+with `Content-Length`, so in general it takes such an end for the end of the file — *except* in the
+one place where the truncation is evident to it: it asked for offset `p` (`Range: bytes=p-`), was
+answered `200` (the file from offset 0, of which it must throw away the first `p` bytes), and the
+stream ended before `p` bytes arrived.  `io.CopyN` reports that, and `reset` fails.
+
+*Refined recorded assumption of `eof_complete`* (per connection, relative to the request it answers):
+`c.invisibleEnd data k range = false` — the stream does not end early and cleanly on a successful
+response, or it does and the reader can tell.  Nothing is assumed about the other connections of the
+script, and nothing about a connection once the next request has been sent. -/
+
+/-- connection `c`, answering a request with Range offset `range`, delivers a successful response
+(`code` 200 or 206) whose stream stops after `q` bytes — before the end of the response body — and
+looks like a clean end: `some (code, q)` -/
+def Conn.cleanEarlyEnd (data : Text) (k : Kind) (c : Conn) (range : Option Nat) : Option (Nat × Nat) :=
+  if c.connFail || c.ending != .clean then none else
+  match c.cutAfter with
+  | none => none
+  | some q =>
+    let (code, content) := serve data k c range
+    if (code = httpOK ∨ code = httpPartial) ∧ q < content.length then some (code, q) else none
+
+/-- the reader can tell that the stream ended early: the request asked for offset `p`, the answer was
+200 (the file from offset 0) and fewer than `p` bytes arrived.  (Nothing of the kind exists for 206
+or for a request without Range: the reader has no length to compare with.) -/
+def evidentEnd (range : Option Nat) (code q : Nat) : Bool :=
+  code == httpOK && match range with
+    | some p => decide (q < p)
+    | none => false
+
+/-- the clean early end of `c` (if it has one for this request) cannot be seen by the reader -/
+def Conn.invisibleEnd (data : Text) (k : Kind) (c : Conn) (range : Option Nat) : Bool :=
+  match c.cleanEarlyEnd data k range with
+  | none => false
+  | some (code, q) => !evidentEnd range code q
 
 /-- a response body as the reader sees it -/
 structure Body where
@@ -158,24 +202,32 @@ deriving Repr, Inhabited
 inductive Outcome
   | installed (code : Nat)     -- `r.body = resp.Body; resp.Body = r; return resp, nil`
   | passthrough (code : Nat)   -- `resp.Body == http.NoBody`: `return resp, nil`, `r.body` untouched
-  | error
+  | error (e : Res)            -- `return resp, <non-nil error of class e>` (`e ≠ .ok`)
 deriving DecidableEq, Repr, Inhabited
+
+/-- class of `errors.Join(a, b)` for two non-nil errors: a `*joinError` is never `== io.EOF`, and
+`errors.Is(·, io.EOF)` holds as soon as it holds for one of the two -/
+def joinErr (a b : Res) : Res :=
+  if a = .fault ∧ b = .fault then .fault else .weof
 
 /-- buffer size of `io.Discard.ReadFrom` (io.CopyN → io.Copy → ReaderFrom) -/
 def discardBuf : Nat := 8192
 
-/-- `io.CopyN(io.Discard, body, n)`: reads `min discardBuf remaining` until `n` bytes are gone; succeeds
-iff all `n` bytes were obtained (whatever error accompanied the last of them). -/
-def discard : Nat → Body → Nat → Body × Bool × List Event
-  | _, b, 0 => (b, true, [])
-  | 0, b, _ + 1 => (b, false, [])
+/-- `io.CopyN(io.Discard, body, n)` = `io.Copy(io.Discard, io.LimitReader(body, n))`: reads
+`min discardBuf remaining` until `n` bytes are gone.  Returns the error of `io.CopyN` (`none` = nil):
+nil iff all `n` bytes were obtained (whatever error accompanied the last of them); otherwise the error
+of the read that stopped the copy — where a *clean* end (`io.Copy` returns nil on `io.EOF`) becomes the
+bare `io.EOF` that `io.CopyN` substitutes ("src stopped early; must have been EOF"). -/
+def discard : Nat → Body → Nat → Body × Option Res × List Event
+  | _, b, 0 => (b, none, [])
+  | 0, b, _ + 1 => (b, some .fault, [])
   | fuel + 1, b, n + 1 =>
     let (b', out, res) := b.read (min discardBuf (n + 1))
     let remaining := n + 1 - out.length
     if res = .ok then
-      let (b'', good, evs) := discard fuel b' remaining
-      (b'', good, Event.body res :: evs)
-    else (b', remaining == 0, [Event.body res])
+      let (b'', err, evs) := discard fuel b' remaining
+      (b'', err, Event.body res :: evs)
+    else (b', if remaining = 0 then none else some res, [Event.body res])
 
 namespace Impl
 
@@ -187,23 +239,24 @@ def reset (cfg : Cfg) (data : Text) (k : Kind) (r : Reader) : Reader × Outcome 
   let range := if r.progress ≠ 0 then some r.progress else none
   let r := { r with log := r.log ++ [Event.req range] }
   match r.script with
-  | [] => (r, .error)
+  | [] => (r, .error .fault)
   | c :: script =>
     let r := { r with script := script }
     -- if err != nil { return resp, errors.Join(oerr, err) }
-    if c.connFail then (r, .error) else
+    if c.connFail then (r, .error .fault) else
     let (code, content) := serve data k c range
     -- if resp.Body == nil || resp.Body == http.NoBody { return resp, nil }
     if content.isEmpty && c.noBody then (r, .passthrough code) else
     let nb := mkBody content c
     if code = cfg.discardCode then
       if r.progress ≠ 0 then
-        -- io.CopyN(io.Discard, resp.Body, r.progress)
+        -- if _, err := io.CopyN(io.Discard, resp.Body, r.progress); err != nil { return resp, err }
         match discard (r.progress + 1) nb r.progress with
-        | (nb', true, evs) => ({ r with body := nb', log := r.log ++ evs }, .installed code)
-        | (_, false, evs) => ({ r with log := r.log ++ evs }, .error)
+        | (nb', none, evs) => ({ r with body := nb', log := r.log ++ evs }, .installed code)
+        | (_, some e, evs) => ({ r with log := r.log ++ evs }, .error e)
       else ({ r with body := nb }, .installed code)
-    else if code ≠ cfg.passCode then (r, .error)
+    -- return resp, fmt.Errorf("… unexpected status code: %d", …)
+    else if code ≠ cfg.passCode then (r, .error .fault)
     else ({ r with body := nb }, .installed code)
 
 /-- the `for _, retry := range …` loop of `Read`; `last` = current values of `(n, err)` -/
@@ -221,7 +274,7 @@ def readLoop (cfg : Cfg) (data : Text) (k : Kind) (m : Nat) :
     else
       match reset cfg data k r with
       -- if rerr != nil { … return n, errors.Join(rerr, err) }
-      | (r', .error) => (r', out, .fault)
+      | (r', .error e) => (r', out, joinErr e .fault)
       | (r', _) => readLoop cfg data k m sched r' (out, .fault)
 
 /-- `func (r *rangeRetryReader) Read(p []byte) (n int, err error)` with `len(p) = m` -/
@@ -267,37 +320,64 @@ namespace Spec
 structure St where
   consumed : Nat            -- bytes handed to the consumer so far
   lastBody : Option Res     -- class of the most recent body read since the last result
+  script   : List Conn      -- connections not used yet: the next request is answered by the head
+  waive    : Bool           -- the current connection (the one that answered the most recent request)
+                            -- has a clean early end that the reader cannot see
 deriving DecidableEq, Repr, Inhabited
 
-/-- one event against the property; `none` = violated.  `strict = false` leaves out the one clause
-(`eof_complete`) that depends on the recorded truncation assumption. -/
-def stepEvent (data : Text) (strict : Bool) (s : St) : Event → Option St
+/-- is the `eof_complete` clause waived for the connection that answers a request with this Range
+offset?  Only for a connection with an invisible clean early end; never when the script is
+exhausted (the request fails). -/
+def nextWaive (data : Text) (k : Kind) (script : List Conn) (range : Option Nat) : Bool :=
+  match script with
+  | [] => false
+  | c :: _ => c.invisibleEnd data k range
+
+/-- one event against the property; `none` = violated -/
+def stepEvent (data : Text) (k : Kind) (s : St) : Event → Option St
   | .req range =>
     -- a request is a fresh download (no Range) before anything was consumed, and asks for exactly
-    -- `bytes=consumed-` afterwards
-    if range = (if s.consumed ≠ 0 then some s.consumed else none) then some s else none
+    -- `bytes=consumed-` afterwards; it is answered by the next connection of the script
+    if range = (if s.consumed ≠ 0 then some s.consumed else none) then
+      some { s with script := s.script.tail, waive := nextWaive data k s.script range }
+    else none
   | .body res => some { s with lastBody := some res }
   | .result out res =>
     -- the bytes handed out are exactly the next bytes the server holds (no duplicate, no gap) …
     if out.isPrefixOf (data.drop s.consumed)
-      -- … a clean EOF only when everything was consumed …
-      && (!strict || res != .eof || s.consumed + out.length == data.length)
+      -- … a clean EOF only when everything was consumed (unless the current connection ended early
+      -- and cleanly where the reader cannot see it) …
+      && (s.waive || res != .eof || s.consumed + out.length == data.length)
       -- … and a failed last attempt is reported as an error
       && (!(s.lastBody == some .fault || s.lastBody == some .weof) || res.isErr)
-    then some ⟨s.consumed + out.length, none⟩ else none
+    then some { s with consumed := s.consumed + out.length, lastBody := none } else none
   | .close => some s
 
-def runFrom (data : Text) (strict : Bool) : St → List Event → Option St
+def runFrom (data : Text) (k : Kind) : St → List Event → Option St
   | s, [] => some s
   | s, e :: es =>
-    match stepEvent data strict s e with
+    match stepEvent data k s e with
     | none => none
-    | some s' => runFrom data strict s' es
+    | some s' => runFrom data k s' es
 
-def init : St := ⟨0, none⟩
+def init (script : List Conn) : St := ⟨0, none, script, false⟩
 
-def accepts (data : Text) (strict : Bool) (log : List Event) : Bool :=
-  (runFrom data strict init log).isSome
+def accepts (data : Text) (k : Kind) (script : List Conn) (log : List Event) : Bool :=
+  (runFrom data k (init script) log).isSome
+
+/-- the waiver in force after the events `log` of a download against `script` (defined without the
+checker: only the requests matter) -/
+def waiveAfter (data : Text) (k : Kind) : List Conn → Bool → List Event → Bool
+  | _, w, [] => w
+  | cs, _, .req range :: es => waiveAfter data k cs.tail (nextWaive data k cs range) es
+  | cs, w, _ :: es => waiveAfter data k cs w es
+
+/-- the requests of a trace paired with the connections that answered them -/
+def pairs : List Event → List Conn → List (Option Nat × Conn)
+  | [], _ => []
+  | .req _ :: _, [] => []
+  | .req range :: es, c :: cs => (range, c) :: pairs es cs
+  | _ :: es, cs => pairs es cs
 
 /-- the callers' view: the status that lets them use the body (both test `!= http.StatusOK`);
 a 200 response without a body is only acceptable for an empty file -/
